@@ -501,8 +501,22 @@ func runC09(c *core.Ctx) {
 					return false
 				}
 				ok, bad := core.MustPassBefore(k.ins, func(ins ssa.Instruction) bool {
-					call, isC := ins.(*ssa.Call)
-					return isC && isSizing(core.Callee(&call.Call))
+					if call, isC := ins.(*ssa.Call); isC && isSizing(core.Callee(&call.Call)) {
+						return true
+					}
+					// the sizing pass written out in place: the decision `workerCount < expected` that guards the spawn calls
+					if iff, isIf := ins.(*ssa.If); isIf {
+						if b, isB := iff.Cond.(*ssa.BinOp); isB && (core.FieldKey(b.X) == "DefaultWorkerPool.workerCount" || core.FieldKey(b.Y) == "DefaultWorkerPool.workerCount") {
+							guards := false
+							core.Instrs(ins.Parent(), func(i2 ssa.Instruction) {
+								if call, isC := i2.(*ssa.Call); isC && isSizing(core.Callee(&call.Call)) && iff.Block().Dominates(call.Block()) {
+									guards = true
+								}
+							})
+							return guards
+						}
+					}
+					return false
 				}, func(ins ssa.Instruction) bool { return isCons[ins] }, skip)
 				where := ""
 				if bad != nil {
